@@ -40,3 +40,14 @@ package fixedtree
 //@   loop 1 invariant !passed
 //@   ensures [local-chain] r0 == nil ==> forall(l, 0 <= l && l < (len(nodes)-1)/2 ==> exists(j, 2*l+2 <= j && j <= 2*l+3 && j < len(nodes) && nodes[j] != nil && !nodes[j].IsEmpty() && snd(nodeHash(nodes[j], nodes[2*l], nodes[2*l+1])) == nil && nodes[j].Hash().Equal(fst(nodeHash(nodes[j], nodes[2*l], nodes[2*l+1])))))
 //@   loop 0 invariant forall(l, 0 <= l && l < i ==> exists(j, 2*l+2 <= j && j <= 2*l+3 && j < len(nodes) && nodes[j] != nil && !nodes[j].IsEmpty() && snd(nodeHash(nodes[j], nodes[2*l], nodes[2*l+1])) == nil && nodes[j].Hash().Equal(fst(nodeHash(nodes[j], nodes[2*l], nodes[2*l+1])))))
+
+// a node's children are exactly the nodes at the indices `children` computes,
+// nil beyond the end of the tree: every node below the root is some node's child
+//@ func children
+//@   pure
+//@ func childrenNodes
+//@   prop C12, C13
+//@   requires len(nodes) < 4611686018427387904
+//@   ensures [err] r1 != nil ==> snd(children(len(nodes), index)) != nil
+//@   ensures [left] r1 == nil ==> snd(children(len(nodes), index)) == nil && ite(fst(children(len(nodes), index))[0] < len(nodes), r0[0] == nodes[fst(children(len(nodes), index))[0]], r0[0] == nil)
+//@   ensures [right] r1 == nil ==> ite(fst(children(len(nodes), index))[1] < len(nodes), r0[1] == nodes[fst(children(len(nodes), index))[1]], r0[1] == nil)
